@@ -174,10 +174,18 @@ class SingularityCutter(Worker):
                 uf.union(a,b)
 
         # Flag edges
+        # Two selected paths of equal length can run on either side of some faces (each path is computed from its own source).
+        # An edge closing a loop with the edges already flagged (or with the border, which is always cut) is left out,
+        # otherwise the faces enclosed by the loop cannot be reached by the dual tree.
+        linked = UnionFind(self.input_mesh.id_vertices)
+        for e in self.input_mesh.boundary_edges:
+            linked.union(*self.input_mesh.edges[e])
         for (a,b) in selected:
             path_ab = path_btw_singus[(a,b)]
             for i in range(1, len(path_ab)):
                 u,v = path_ab[i-1], path_ab[i]
+                if linked.connected(u,v): continue
+                linked.union(u,v)
                 edge_flags[ self.input_mesh.connectivity.edge_id(u,v) ] = True
         return edge_flags
 
